@@ -99,6 +99,10 @@ func main() {
 			// write / delete or bank operation beyond the reviewed footprint (footprint.go)
 			if mods := footprintModules[id]; len(mods) > 0 {
 				cx.footprintRule(r, mods, "footprint")
+				// and the error of every state-changing call on a message path decides the outcome
+				if n := cx.effectErrorsPropagated(r, mods, "effect-error-propagated"); n == 0 && !(len(mods) == 1 && (mods[0] == "random" || mods[0] == "record")) {
+					r.toolErr("effect-error-propagated: no state-changing call with an error result found on the message paths of %v", mods)
+				}
 			}
 		}()
 		if *tier == "thorough" && os.Getenv("IRISLINT_NO_VARIANTS") == "" {
